@@ -14,7 +14,7 @@ from mmv import util
 
 PROP = 'C19'
 LEVEL = 'exploration'
-RULE = ('Generated experiment frames (1-8 geos per group, 12-70 dates with pre / test / cooldown periods, planted noisy geos '
+RULE = ('Generated experiment frames (1-8 geos per group, 12-70 dates, unique / shifted / non-unique row labels with pre / test / cooldown periods, planted noisy geos '
         '(uncorrelated or constant) and outlier dates (spikes) or none, < 4 geos so that the noisy-geo test returns None, '
         'custom column names and group / period labels, unassigned geos, shuffled rows) are given to the real '
         'TBRDiagnostics.fit. get_data() must equal the input rows minus every row of the reported noisy geos and outlier '
@@ -26,9 +26,9 @@ ASSUMPTIONS = ['the date is a column of the frame (the method selects it by name
                'frames have >= 12 dates (the correlation test needs >= 4 observations)']
 EXHAUSTIVE = {'quick': False, 'thorough': False}
 MINIMA = {'quick': {'fits_ok': 300, 'removed_geo_cases': 40, 'removed_date_cases': 40, 'permutation_pairs': 300,
-                    'distinct_nontrivial': 100},
+                    'nonunique_index_cases': 80, 'distinct_nontrivial': 100},
           'thorough': {'fits_ok': 5000, 'removed_geo_cases': 600, 'removed_date_cases': 600, 'permutation_pairs': 5000,
-                       'distinct_nontrivial': 1500}}
+                       'nonunique_index_cases': 1200, 'distinct_nontrivial': 1500}}
 N = {'quick': 480, 'thorough': 7000}
 CASE_TIMEOUT = {'quick': 180, 'thorough': 600}
 
@@ -96,15 +96,28 @@ def make_frame(r, g):
   frame = pd.DataFrame(rows, columns=[names['date'], names['geo'], names['group'], names['period'], names['response']])
   if r.random() < 0.3:
     frame['other'] = 1.5
-  if r.random() < 0.3:
+  u = r.random()
+  index_kind = 'range'
+  if u < 0.2:
     frame.index = frame.index + 1000
+    index_kind = 'shifted'
+  elif u < 0.45:
+    # non-unique row labels, as produced by pd.concat of per-geo frames without ignore_index
+    frame.index = pd.Index(frame.groupby(names['geo']).cumcount().to_numpy())
+    index_kind = 'per-geo-counter'
+  elif u < 0.55:
+    frame.index = pd.Index(np.zeros(len(frame), dtype=int))
+    index_kind = 'all-zero'
+  elif u < 0.65:
+    frame.index = pd.Index(frame[names['geo']].to_numpy(), name='geo_id')
+    index_kind = 'geo-labelled'
   kwargs = {}
   if custom:
     kwargs = {'key_geo': names['geo'], 'key_date': names['date'], 'key_group': names['group'], 'key_period': names['period'],
               'key_response': names['response'], 'group_control': labels['control'], 'group_treatment': labels['treatment'],
               'period_pre': labels['pre'], 'period_test': labels['test'], 'period_cooldown': labels['cooldown']}
   desc = {'n_ctl': n_ctl, 'n_trt': n_trt, 'n_pre': n_pre, 'n_test': n_test, 'n_cool': n_cool, 'custom_names': custom,
-          'planted': planted, 'unassigned_geos': len(groups) == 3, 'seed_tag': r.randrange(1 << 30)}
+          'planted': planted, 'index_kind': index_kind, 'unassigned_geos': len(groups) == 3, 'seed_tag': r.randrange(1 << 30)}
   return frame, kwargs, names, labels, desc
 
 
@@ -198,6 +211,8 @@ def run_case(spec):
       add('permutation', 'screen-row-order-dependence', 'results for permuted rows differ: %r vs %r' % (
           {k: r2.get(k) for k in ('noisy_geos', 'outlier_dates', 'corr_test')},
           {k: res.get(k) for k in ('noisy_geos', 'outlier_dates', 'corr_test')}))
+  if desc['index_kind'] in ('per-geo-counter', 'all-zero', 'geo-labelled'):
+    counters['nonunique_index_cases'] += 1
   if noisy_set:
     counters['removed_geo_cases'] += 1
   if out_set:
